@@ -56,6 +56,8 @@ def sig_of(v):
         return "/".join(str(x) for x in [v.get("prop"), what, "via%s" % st.get("via")] + ([] if st.get("shape") in (None, "full") else ["access-field-" + st["shape"]]))
     if op == "kick":
         return "%s/%s/ban%s" % (v.get("prop"), what, st.get("ban")) + ("/bystander-%s-address" % st.get("third") if "bystander" in what else "") + ("/shared-account" if st.get("shared") else "")
+    if op == "multi":
+        return "%s/%s/edit%s/%s" % (v.get("prop"), what, st.get("edit"), d.get("session", "?"))
     if op == "upd":
         return "%s/%s/via%s" % (v.get("prop"), what, st.get("via"))
     if op == "rt":
@@ -67,7 +69,8 @@ def _case_of(ev):
     """The script (input) part of a logged event."""
     keys = {"handle": ("op", "t", "k", "acc", "rd"), "create": ("op", "via", "by", "acc", "login", "want", "shape"),
             "kick": ("op", "acc", "tacc", "ban", "third", "pacc", "shared"), "rt": ("op", "S", "bytes", "names"),
-            "upd": ("op", "via", "S", "old", "bytes")}.get(ev.get("op"), ())
+            "upd": ("op", "via", "S", "old", "bytes"),
+            "multi": ("op", "kind", "edit", "n", "k", "a0", "a1", "ban", "via", "want")}.get(ev.get("op"), ())
     return {k: ev[k] for k in keys if k in ev}
 
 
